@@ -68,6 +68,15 @@ class Elf(BinFormat):
         return self.__file
 
     def __init__(self, f):
+        try:
+            self.__load(f)
+        except (ElfError, StructureError):
+            raise
+        except Exception as e:
+            # malformed content is reported with the format's own error type
+            raise ElfError("malformed ELF file (%s: %s)" % (type(e).__name__, e))
+
+    def __load(self, f):
         self.__file = f
         self.Ehdr = Ehdr(f)
         x64 = self.Ehdr.e_ident.EI_CLASS == ELFCLASS64
